@@ -17,6 +17,9 @@
 From Coq Require Import ZArith List Lia Bool.
 From LZ4V Require Import Gen.Consts Spec.BlockSpec Model.Mem Model.Fast Model.FastApi
      Model.HcEmit Proofs.FastCap Proofs.FastApiCap Proofs.HcEmitProofs.
+From LZ4V Require Model.HcMid Proofs.HcMidSound.
+From LZ4V Require Import Model.HcMidApi Proofs.HcMidApiSound.
+From LZ4V Require Import Proofs.FastApiSound.
 Import ListNotations.
 Local Open Scope Z_scope.
 
@@ -89,3 +92,24 @@ Example C09_nonvacuous :
   /\ (let a := compress_fast_extState src 20 21 1 in a_ret a) = 0
   /\ compressBound 20 = 36.
 Proof. vm_compute. repeat split; reflexivity. Qed.
+
+(* HC levels 1-2 (LZ4MID), on a context with any history: with a capacity below LZ4_compressBound nothing is
+   written beyond dst + dstCapacity (wild-copy slack and abandoned attempts included) and a positive result
+   is <= dstCapacity; with a capacity of at least LZ4_compressBound(srcSize) the call succeeds and nothing
+   is written beyond LZ4_compressBound(srcSize). *)
+Theorem C09_hc_mid_capacity :
+  forall c src srcSize cap,
+    hc_ok c -> src_ok src -> 0 <= srcSize < 2147483648 -> 0 <= cap ->
+    let r := compress_HC_fastReset_mid c src srcSize cap in
+    (cap < compressBound srcSize -> hr_hw r <= cap /\ hr_ret r <= cap) /\
+    (compressBound srcSize <= cap -> srcSize <= LZ4_MAX_INPUT_SIZE -> 0 < hr_ret r /\ hr_hw r <= compressBound srcSize).
+Proof.
+  intros c src srcSize cap Hc Hs Hz Hcap r. subst r.
+  destruct (compress_HC_fastReset_mid_sound c src srcSize cap Hc Hs Hz Hcap) as ((_ & H2 & H3) & H4).
+  split; [|exact H4].
+  intros Hlt. replace (cap <? compressBound srcSize) with true in * by lia. cbn [hwlim_of] in *.
+  split; [exact H2|].
+  destruct (Z_lt_le_dec 0 (hr_ret (compress_HC_fastReset_mid c src srcSize cap))) as [Hp|Hn]; [|lia].
+  destruct (H3 Hp) as (_ & B & _). exact B.
+Qed.
+Print Assumptions C09_hc_mid_capacity.
